@@ -78,6 +78,10 @@ def gen_case(seed, tier, index=0):
     for extra in ("src2/two.py", "src-legacy/old.py", "srcgen.py", "docs-old/x.html", "src/deeper/y.py", "docs.py"):
         if rng.chance(0.45):
             files.append({"path": extra, "content": "v = 0\n"})
+    # names that EXTEND the name of a file that gets annotated (back-ups, left-overs of editors and of other tools)
+    for extra in ("src/a.py.tmp", "src/a.py~", "src/b.c.bak", "src/b.c.orig", "src/a.py.new", "src/.a.py.swp"):
+        if rng.chance(0.25):
+            files.append({"path": extra, "content": "# SPDX-FileCopyrightText: 2012 Somebody Else\nkeep = 1\n"})
     g = rng.randrange(3)
     if g == 0:
         files.append({"path": "REUSE.toml", "content": G.reuse_toml([{"path": "docs/**", "precedence": "aggregate", "SPDX-FileCopyrightText": "2020 X", "SPDX-License-Identifier": "CC0-1.0"}])})
